@@ -106,8 +106,12 @@ def reentrant(c0: int, c1: int, c2: int, depth: int, x: int, y: int) -> bool:
     targets = [make_target(c, x + i, y - i) for i, c in enumerate(cs)]
     # alone: hooks unarmed
     HOOKS.clear()
-    alone = [outcome_of(lambda c=c, t=t: glom(t, specs[c])) for c, t in zip(cs, targets)]
+    alone = []
+    for c, t in zip(cs, targets):
+        vkit.stubs.reset_glom_state()            # "alone" = first call in fresh library state
+        alone.append(outcome_of(lambda c=c, t=t: glom(t, specs[c])))
     # nested
+    vkit.stubs.reset_glom_state()
     OUTCOMES.clear()
 
     def arm(level):
@@ -143,7 +147,7 @@ def recursive_args(n: int, x: int) -> bool:
     holder['spec'] = Call(_rec, args=([T['id'], Spec(f), T['n']],))
     got = glom({'n': n, 'id': x}, holder['spec'])
     exp = 'leaf'
-    for lvl in range(1, n + 1):
+    for lvl in range(0, n + 1):
         exp = (([x + (n - lvl), exp, lvl],), [])
     reach('recursive_args')
     return got == exp or fail(got=got, exp=exp)
